@@ -396,6 +396,32 @@ pub fn run(ctx: &Ctx) -> EvidenceMeta {
         st.class("generate()");
         Ok(())
     });
+    // Message::builder_request(method): class Request, that method, a generated id that fits in 96
+    // bits and is written after the cookie; for all 4096 methods
+    ctx.sweep("builder-request", 4096 * ctx.n(2, 16), |i, st| {
+        st.eval();
+        let method = (i % 4096) as u16;
+        let fail = |m: String| (Fail::new("c19-builder-request", m), serde_json::Value::Null);
+        let b = guard(|| stun_types::message::Message::builder_request(method)).map_err(|p| fail(format!("builder_request({:#x}) panicked: {}", method, p)))?;
+        let t: u128 = b.transaction_id().into();
+        if t > TID_MASK {
+            return Err(fail(format!("builder_request({:#x}) carries the id {:#x}, more than 96 bits", method, t)));
+        }
+        let bytes = b.build();
+        let want_type = crate::refstun::type_encode(0, method);
+        let mut want = Vec::with_capacity(20);
+        want.extend_from_slice(&want_type.to_be_bytes());
+        want.extend_from_slice(&[0, 0, 0x21, 0x12, 0xA4, 0x42]);
+        want.extend_from_slice(&t.to_be_bytes()[4..]);
+        if bytes != want {
+            return Err(fail(format!("builder_request({:#x}) with id {:#x} serialises to {}, RFC 8489 s5 gives {}", method, t, hex(&bytes), hex(&want))));
+        }
+        if !b.has_class(stun_types::message::MessageClass::Request) || b.has_class(stun_types::message::MessageClass::Indication) {
+            return Err(fail(format!("builder_request({:#x}) does not report class Request", method)));
+        }
+        st.class("builder_request(method)");
+        Ok(())
+    });
 
     EvidenceMeta {
         rule: "exhaustive loops over all 65536 type-field values and all 4x4096 (class, method) pairs, compared with a \
